@@ -166,7 +166,7 @@ class Generator:
             j = i + 1
             while j < len(lines):
                 sj = lines[j].strip()
-                if re.match(r"^//@(\||loop\s|rewrite|rewriteall|before|afterstmt|after|sig\s|from\s|fromafter\s|to\s|until\s)", sj):
+                if re.match(r"^//@(\||loop\s|rewrite|rewriteall|before|afterstmt|after|sig\s|from\s|fromafter\s|to\s|until\s|tail\s)", sj):
                     cont.append(self._subst_lit(sj))
                     j += 1
                 else:
@@ -207,6 +207,7 @@ class Generator:
         until = False   # `//@until <<<a>>>`: the region ends just BEFORE the anchor; `//@from <<<^>>>`: starts at the body's first statement
         spec, edits = "", []
         rloops = {}
+        tail = None   # `//@tail EXPR`: the value of the wrapper function (names of the region's own locals)
         for c in cont:
             m = re.match(r"^//@sig\s+(.*)$", c)
             if m: sig = m.group(1); continue
@@ -222,6 +223,8 @@ class Generator:
             if m: spec += m.group(1) + "\n"; continue
             m = re.match(r"^//@loop\s+(\d+)\|\s?(.*)$", c)
             if m: rloops.setdefault(int(m.group(1)), []).append(m.group(2)); continue
+            m = re.match(r"^//@tail\s+(.*)$", c)
+            if m: tail = m.group(1); continue
             edits.append(c)
         if not (sig and frm and to):
             raise AnchorLost("region needs sig/from/to")
@@ -244,6 +247,9 @@ class Generator:
                 body = self._apply_insert(c, "{" + body + "}", rules, it)[1:-1]
         if rloops:
             body = self._splice_loops("{" + body + "}", rloops, it)[1:-1]
+        if tail:
+            body = body + "\n" + tail
+            rules.append("E1' wrapper returns `%s`" % tail)
         line = sf.src.count("\n", 0, sf.toks[it.body_open].start + mf[0].start()) + 1
         lo = len(g.lines) + 1
         g.lines.append("// >>> [region] %s:%d %s" % (rel, line, path))
